@@ -54,7 +54,7 @@ def hasItems : List ITy → List Scalar → Bool
 /-- a literal value whose name finds it back among the declared values -/
 def litOk (vals : List Scalar) (s : Scalar) : Bool :=
   match s with
-  | .str n => vals.find? (fun v => literalName v = some n) == some s
+  | .str n => vals.reverse.find? (fun v => literalName v = some n) == some s   -- last match wins, as in `choice_dict`
   | .int _ => vals.contains s
   | .bool _ => vals.contains s
   | _ => false
